@@ -193,7 +193,7 @@ Section Out.
   Qed.
   Lemma out_ok_aot_local sender fn args gl ct o :
     i_dst i = true -> out_ok (add_output_transfer sender fn args (i_rcpt i) gl ct o).
-  Proof. intros H. unfold add_output_transfer. apply (out_ok_one (set_gasrem _ 0)) || apply out_ok_set_gasrem, out_ok_one. right. left. auto. Qed.
+  Proof. intros H. unfold add_output_transfer. apply out_ok_set_gasrem, out_ok_one. right. left. auto. Qed.
   Lemma out_ok_aot_same sender fn args dst gl ct o :
     shard_of E dst = self_shard E -> out_ok (add_output_transfer sender fn args dst gl ct o).
   Proof. intros H. unfold add_output_transfer. apply out_ok_set_gasrem, out_ok_one. right. right. left. exact H. Qed.
